@@ -1,6 +1,6 @@
 SPECIFICATION Spec
 CONSTANTS
-  Ids = {0, 1, 3}
+  Ids = {0, 3}
   Vals = {1, 2}
   Probes = {0, 1, 2, 3, 4}
   Backings = {"vector", "mmap", "stdmm", "hybrid"}
